@@ -1,145 +1,417 @@
 /-!
-Prototype model of engine/rule.go (pinned commit, unrepaired): the rule index tree with its three
-sub-index types, the 64-bit state matcher, IsTriggering and Match.  `Out.panic` = Go panic
-(unhashable value), `Out.hang` = the collection loop that never ends once bit 63 is set.
+# Model of the ECA engine's rule matching (engine/rule.go, engine/util.go, engine/processor.go)
+
+Follows the Go code of the repaired tree (fix commits 9d82a0e, 1d04360):
+
+* `Idx`        — the rule index tree: `RuleIndexKind` (wildcard list, exact-segment map, each a list of
+                 sub-indexes: at most one per type, except that a *full* state leaf — 63 rules — is
+                 skipped and a further one is appended), `RuleIndexState` (rules + one `KeyMatcher` per
+                 state key, one bit per rule in a `BitVec 64`), `RuleIndexAll`.
+* `addAt`      — `addRuleAtLevel`;  `matchAt` — `matchAtLevel`;  `trigAt` — `isTriggeringAtLevel`.
+                 The recursion is on the remaining kind segments (`event.kind[level:]`).
+* `kmAdd/kmMatch/kmUnmatch` — `RuleMatcherKey.addRule/match/unmatch` with the exact bit formulas;
+                 hashable values live in `bitsValue`, lists/maps in the deep-compared `bitsDeep`.
+* `collect`    — the bit collection loop with fuel: `Out.hang` when the fuel runs out (the Go loop never
+                 ends once bit 63 of the mask is set), `Out.panic` for `ri.rules[i]` out of range.
+* `Root`       — `ruleIndexRoot` (refuses a second rule of the same name; registers the name before the
+                 kind check).
+* `Scope`      — the `RuleScope` trie (`Add`, `IsAllowed`).
+* `processEvent` — candidates de-duplicated by name, scope filter, suppression set, sort by priority.
+* `Proc`       — the processor's trigger cache, keyed by the kind (`fmt.Sprintf("%q", kind)` is injective).
+
+Values are abstract: the property only needs equality and hashability. `Val.atom c` is a hashable
+non-nil Go value of equality class `c` (Go `==` on interfaces), `Val.deep c` a list/map of
+`reflect.DeepEqual` class `c`. Regular expressions are ids; `rx id v` stands for
+`regex_id.MatchString(fmt.Sprint(v))` and is a parameter everywhere.
 -/
 namespace Ecal.Engine
 
-inductive SVal where
-  | any                     -- nil in a state match: key must be present
-  | num (n : Int) | str (s : String) | bool (b : Bool)
-  | list                    -- an unhashable value
+abbrev Seg := String
+abbrev W := BitVec 64
+
+inductive Val where
+  | null
+  | atom (c : Nat)
+  | deep (c : Nat)
+  deriving DecidableEq, Repr, Inhabited
+
+/-- a value of `Rule.StateMatch`: nil, a hashable value, a list/map, a `*regexp.Regexp` -/
+inductive Pat where
+  | any
+  | atom (c : Nat)
+  | deep (c : Nat)
+  | rx (id : Nat)
   deriving DecidableEq, Repr, Inhabited
 
 structure Rule where
   name : String
-  kinds : List (List String)
-  state : Option (List (String × SVal))
-  deriving Repr, Inhabited
+  kinds : List (List Seg)                   -- KindMatch, each entry split at "."
+  scope : List (List Seg)                   -- ScopeMatch, each entry split at "."
+  state : Option (List (String × Pat))      -- StateMatch (none = nil map)
+  prio : Int
+  suppress : List String
+  deriving DecidableEq, Repr, Inhabited
 
 structure Event where
-  kind : List String
-  state : List (String × SVal)        -- `any` here = key present with nil value
-  deriving Repr, Inhabited
+  name : String
+  kind : List Seg
+  state : List (String × Val)
+  deriving DecidableEq, Repr, Inhabited
 
-structure KeyMatcher where
-  bits : UInt64 := 0
-  bitsAny : UInt64 := 0
-  bitsValue : List (SVal × UInt64) := []
-  deriving Repr, Inhabited
+/-! ## association lists (Go maps; only looked up by key) -/
+
+def alookup [DecidableEq κ] (k : κ) : List (κ × β) → Option β
+  | [] => none
+  | (k', v) :: rest => if k' = k then some v else alookup k rest
+
+/-- replace the value of `k` or append a new entry -/
+def aset [DecidableEq κ] (k : κ) (v : β) : List (κ × β) → List (κ × β)
+  | [] => [(k, v)]
+  | (k', v') :: rest => if k' = k then (k, v) :: rest else (k', v') :: aset k v rest
+
+/-! ## outcomes -/
 
 inductive Out (α : Type) where
-  | ok (a : α) | panic | hang
-  deriving Repr
+  | ok (a : α)
+  | panic
+  | hang
+  deriving Repr, DecidableEq
 
-instance : Monad Out where
-  pure := Out.ok
-  bind x f := match x with | .ok a => f a | .panic => .panic | .hang => .hang
+/-- run the parts in order, concatenating; the first failure wins -/
+def Out.flat : List (Out (List α)) → Out (List α)
+  | [] => .ok []
+  | o :: rest =>
+    match o with
+    | .ok a => (match Out.flat rest with | .ok b => .ok (a ++ b) | e => e)
+    | .panic => .panic
+    | .hang => .hang
 
-inductive Idx where
-  | kind (all : List Idx) (single : List (String × List Idx))
-  | state (rules : List String) (keys : List (String × KeyMatcher))
-  | allLeaf (rules : List String)
+/-! ## RuleMatcherKey -/
+
+structure KeyMatcher where
+  bits : W := 0
+  bitsAny : W := 0
+  bitsValue : List (Nat × W) := []
+  bitsRegexes : List (W × Nat) := []
+  bitsDeep : List (Nat × W) := []
   deriving Repr, Inhabited
 
-inductive Ty | kind | state | allLeaf deriving DecidableEq
+/-- `RuleMatcherKey.addRule` -/
+def kmAdd (km : KeyMatcher) (bit : W) : Pat → KeyMatcher
+  | .any => { km with bits := km.bits ||| bit, bitsAny := km.bitsAny ||| bit }
+  | .rx id => { km with bits := km.bits ||| bit, bitsAny := km.bitsAny ||| bit,
+                        bitsRegexes := aset bit id km.bitsRegexes }
+  | .atom c => { km with bits := km.bits ||| bit,
+                         bitsValue := aset c (((alookup c km.bitsValue).getD 0) ||| bit) km.bitsValue }
+  | .deep c => { km with bits := km.bits ||| bit,
+                         bitsDeep := aset c (((alookup c km.bitsDeep).getD 0) ||| bit) km.bitsDeep }
 
-def Idx.ty : Idx → Ty | .kind .. => .kind | .state .. => .state | .allLeaf .. => .allLeaf
+/-- the bits to clear for a present key with value `v` -/
+def kmToRemove (km : KeyMatcher) : Val → W
+  | .null => km.bitsAny ^^^ km.bits
+  | .atom c =>
+    match alookup c km.bitsValue with
+    | some add => (km.bitsAny ||| add) ^^^ km.bits
+    | none => km.bitsAny ^^^ km.bits
+  | .deep c =>
+    match alookup c km.bitsDeep with
+    | some add => (km.bitsAny ||| add) ^^^ km.bits
+    | none => km.bitsAny ^^^ km.bits
+
+/-- one round of the regex loop -/
+def rxStep (rx : Nat → Val → Bool) (v : Val) (acc : W) (e : W × Nat) : W :=
+  if acc &&& e.1 ≠ 0 ∧ rx e.2 v = false then acc ^^^ (acc &&& e.1) else acc
+
+/-- `RuleMatcherKey.match` -/
+def kmMatch (rx : Nat → Val → Bool) (km : KeyMatcher) (bits : W) (v : Val) : W :=
+  let toRemove := kmToRemove km v
+  let keyMatched := bits ^^^ (bits &&& toRemove)
+  km.bitsRegexes.foldl (rxStep rx v) keyMatched
+
+/-- `RuleMatcherKey.unmatch` -/
+def kmUnmatch (km : KeyMatcher) (bits : W) : W := bits ^^^ (bits &&& km.bits)
+
+/-! ## the index tree -/
+
+inductive Idx where
+  | kind (all : List Idx) (single : List (Seg × List Idx))
+  | state (rules : List Rule) (keys : List (String × KeyMatcher))
+  | allLeaf (rules : List Rule)
+
+instance : Inhabited Idx := ⟨.allLeaf []⟩
+
+inductive Ty where
+  | kind | state | allLeaf
+  deriving DecidableEq, Repr
+
+/-- `ruleIndexStateCapacity` -/
+def capacity : Nat := 63
 
 def newIdx : Ty → Idx
-  | .kind => .kind [] [] | .state => .state [] [] | .allLeaf => .allLeaf []
+  | .kind => .kind [] []
+  | .state => .state [] []
+  | .allLeaf => .allLeaf []
 
-def kmAdd (km : KeyMatcher) (bit : UInt64) (v : SVal) : Out KeyMatcher :=
-  let km := { km with bits := km.bits ||| bit }
-  match v with
-  | .any => .ok { km with bitsAny := km.bitsAny ||| bit }
-  | .list => .panic                                   -- rm.bitsValue[value] with a slice
-  | v =>
-    let cur := (km.bitsValue.find? (·.1 == v)).map (·.2) |>.getD 0
-    .ok { km with bitsValue := (km.bitsValue.filter (·.1 != v)) ++ [(v, cur ||| bit)] }
+/-- the sub-index can take a rule that needs index type `ty` (a full state leaf cannot) -/
+def Idx.accepts (ty : Ty) : Idx → Bool
+  | .kind _ _ => ty = .kind
+  | .state rules _ => ty = .state && rules.length < capacity
+  | .allLeaf _ => ty = .allLeaf
 
-partial def addAt (rule : Rule) (levels : List String) (idx : Idx) : Out Idx :=
-  match idx with
-  | .kind all single =>
-    match levels with
-    | [] => .panic
-    | item :: rest =>
-      let ty : Ty := if rest.isEmpty then (if rule.state.isSome then .state else .allLeaf) else .kind
-      let lst : List Idx := if item == "*" then all else (single.find? (·.1 == item)).map (·.2) |>.getD []
-      -- existing sub index of that type, else a new one at the end
-      let (pre, found, post) :=
-        match lst.span (fun i => i.ty != ty) with
-        | (pre, f :: post) => (pre, f, post)
-        | (pre, []) => (pre, newIdx ty, [])
-      do
-        let found' ← addAt rule rest found
-        let lst' := pre ++ [found'] ++ post
-        if item == "*" then pure (.kind lst' single)
-        else
-          let single' := if (single.find? (·.1 == item)).isSome then single.map fun p => if p.1 == item then (item, lst') else p
-                         else single ++ [(item, lst')]
-          pure (.kind all single')
-  | .state rules keys =>
-    let num := rules.length
-    let bit : UInt64 := if num < 64 then (1 : UInt64) <<< num.toUInt64 else 0       -- 1 << num wraps to 0
-    do
-      let keys' ← (rule.state.getD []).foldlM (fun (ks : List (String × KeyMatcher)) (kv : String × SVal) => do
-        let km := (ks.find? (·.1 == kv.1)).map (·.2) |>.getD {}
-        let km' ← kmAdd km bit kv.2
-        pure ((ks.filter (·.1 != kv.1)) ++ [(kv.1, km')])) keys
-      pure (.state (rules ++ [rule.name]) keys')
-  | .allLeaf rules => .ok (.allLeaf (rules ++ [rule.name]))
+/-- apply `f` to the first element satisfying `p`, else to `new` appended at the end -/
+def updFirst (p : Idx → Bool) (f : Idx → Idx) (new : Idx) : List Idx → List Idx
+  | [] => [f new]
+  | i :: rest => if p i then f i :: rest else i :: updFirst p f new rest
 
-def addRule (idx : Idx) (r : Rule) : Out Idx :=
-  r.kinds.foldlM (fun i k => addAt r k i) idx
+def leafTy (r : Rule) : Ty := if r.state.isSome then .state else .allLeaf
 
-def kmMatch (km : KeyMatcher) (bits : UInt64) (v : SVal) : Out UInt64 :=
-  match v with
-  | .any => .ok (bits ^^^ (bits &&& (km.bitsAny ^^^ km.bits)))
-  | .list => .panic                                   -- hashing the event's value
-  | v =>
-    let toRemove := match km.bitsValue.find? (·.1 == v) with
-      | some (_, add) => (km.bitsAny ||| add) ^^^ km.bits
-      | none => km.bitsAny ^^^ km.bits
-    .ok (bits ^^^ (bits &&& toRemove))
+/-- one entry of the state pattern enters the key matchers of a leaf -/
+def keyAdd (bit : W) (ks : List (String × KeyMatcher)) (kp : String × Pat) : List (String × KeyMatcher) :=
+  aset kp.1 (kmAdd ((alookup kp.1 ks).getD {}) bit kp.2) ks
 
-def collect (rules : List String) (mb : UInt64) : Out (List String) :=
-  let rec go (fuel : Nat) (i : Nat) (cb : UInt64) (acc : List String) : Out (List String) :=
-    match fuel with
-    | 0 => .hang
-    | f+1 =>
-      if cb ≤ mb then
-        go f (i + 1) (cb <<< 1) (if mb &&& cb > 0 then acc ++ [rules.getD i "?"] else acc)
-      else .ok acc
-  go 200 0 1 []
+/-- `RuleIndexState.addRuleAtLevel` (`1 <<< n` is 0 for n ≥ 64, as in Go) -/
+def stateAdd (r : Rule) (rules : List Rule) (keys : List (String × KeyMatcher)) : Idx :=
+  .state (rules ++ [r]) ((r.state.getD []).foldl (keyAdd ((1 : W) <<< rules.length)) keys)
 
-partial def matchAt (ev : Event) (level : Nat) : Idx → Out (List String)
-  | .kind all single =>
-    if ev.kind.length ≤ level then .ok []
-    else do
-      let a ← all.foldlM (fun acc i => do pure (acc ++ (← matchAt ev (level + 1) i))) []
-      let lst := (single.find? (·.1 == ev.kind.getD level "")).map (·.2) |>.getD []
-      lst.foldlM (fun acc i => do pure (acc ++ (← matchAt ev (level + 1) i))) a
-  | .state rules keys =>
-    if ev.kind.length != level then .ok []
-    else do
-      let n := rules.length
-      let init : UInt64 := (if n < 64 then (1 : UInt64) <<< n.toUInt64 else 0) - 1
-      -- Go iterates the key map in random order and stops early when no bit is left; a panic that
-      -- a later key would raise is therefore order dependent – the model flags that case
-      let mb ← keys.foldlM (fun (mb : UInt64) (kk : String × KeyMatcher) =>
-        match ev.state.find? (·.1 == kk.1) with
-        | some (_, v) => kmMatch kk.2 mb v
-        | none => pure (mb ^^^ (mb &&& kk.2.bits))) init
-      if mb == 0 then pure [] else collect rules mb
-  | .allLeaf rules => if ev.kind.length != level then .ok [] else .ok rules
+/-- `addRuleAtLevel`. The cases marked unreachable cannot occur through `AddRule`
+    (`strings.Split` never returns an empty slice; a leaf is only chosen for the last segment). -/
+def addAt (r : Rule) : List Seg → Idx → Idx
+  | [], .state rules keys => stateAdd r rules keys
+  | [], .allLeaf rules => .allLeaf (rules ++ [r])
+  | [], .kind all single => .kind all single            -- unreachable (Go: index out of range)
+  | item :: rest, .kind all single =>
+    let ty : Ty := if rest.isEmpty then leafTy r else .kind
+    if item = "*" then
+      .kind (updFirst (Idx.accepts ty) (addAt r rest) (newIdx ty) all) single
+    else
+      .kind all (aset item (updFirst (Idx.accepts ty) (addAt r rest) (newIdx ty)
+                             ((alookup item single).getD [])) single)
+  | _ :: _, .state rules keys => .state rules keys      -- unreachable (Go: assertion)
+  | _ :: _, .allLeaf rules => .allLeaf rules            -- unreachable
 
-partial def trigAt (ev : Event) (level : Nat) : Idx → Bool
-  | .kind all single =>
-    if ev.kind.length ≤ level then false
-    else all.any (trigAt ev (level + 1)) ||
-      ((single.find? (·.1 == ev.kind.getD level "")).map (·.2) |>.getD []).any (trigAt ev (level + 1))
-  | .state .. => ev.kind.length == level
-  | .allLeaf .. => ev.kind.length == level
+/-- the collection loop: `for i := 0; cb <= mb; i++ { if mb&cb > 0 { ret = append(ret, rules[i]) }; cb <<= 1 }` -/
+def collect (rules : List Rule) (mb : W) : Nat → Nat → W → List Rule → Out (List Rule)
+  | 0, _, _, _ => .hang
+  | fuel + 1, i, cb, acc =>
+    if cb ≤ mb then
+      if mb &&& cb ≠ 0 then
+        match rules[i]? with
+        | some r => collect rules mb fuel (i + 1) (cb <<< 1) (acc ++ [r])
+        | none => .panic
+      else collect rules mb fuel (i + 1) (cb <<< 1) acc
+    else .ok acc
+
+/-- more rounds than any terminating run of the loop needs (it ends after at most 64) -/
+def collectFuel : Nat := 100
+
+/-- the loop over the key map with its early exit -/
+def matchKeys (rx : Nat → Val → Bool) (ev : Event) : List (String × KeyMatcher) → W → W
+  | [], mb => mb
+  | (k, km) :: rest, mb =>
+    let mb' := match alookup k ev.state with
+      | some v => kmMatch rx km mb v
+      | none => kmUnmatch km mb
+    if mb' = 0 then 0 else matchKeys rx ev rest mb'
+
+/-- `RuleIndexState.matchAtLevel` once the level check has passed -/
+def stateMatch (rx : Nat → Val → Bool) (ev : Event) (rules : List Rule)
+    (keys : List (String × KeyMatcher)) : Out (List Rule) :=
+  let init : W := ((1 : W) <<< rules.length) - 1
+  let mb := matchKeys rx ev keys init
+  if mb = 0 then .ok [] else collect rules mb collectFuel 0 1 []
+
+/-- `matchAtLevel`; the list argument is `event.kind[level:]` -/
+def matchAt (rx : Nat → Val → Bool) (ev : Event) : List Seg → Idx → Out (List Rule)
+  | [], .kind _ _ => .ok []
+  | [], .state rules keys => stateMatch rx ev rules keys
+  | [], .allLeaf rules => .ok rules
+  | k :: ks, .kind all single =>
+    Out.flat ((all ++ (alookup k single).getD []).map (matchAt rx ev ks))
+  | _ :: _, .state _ _ => .ok []
+  | _ :: _, .allLeaf _ => .ok []
+
+/-- `isTriggeringAtLevel` -/
+def trigAt : List Seg → Idx → Bool
+  | [], .kind _ _ => false
+  | [], .state _ _ => true
+  | [], .allLeaf _ => true
+  | k :: ks, .kind all single => (all ++ (alookup k single).getD []).any (trigAt ks)
+  | _ :: _, .state _ _ => false
+  | _ :: _, .allLeaf _ => false
+
+/-! ## ruleIndexRoot -/
+
+structure Root where
+  idx : Idx := .kind [] []
+  names : List String := []      -- keys of `ruleIndexRoot.rules`
+  indexed : List Rule := []      -- ghost: the rules that entered the tree, in order
+
+def addRuleIdx (idx : Idx) (r : Rule) : Idx := r.kinds.foldl (fun i k => addAt r k i) idx
+
+/-- `ruleIndexRoot.AddRule`; the flag is "an error was returned" -/
+def Root.addRule (rt : Root) (r : Rule) : Root × Bool :=
+  if r.name ∈ rt.names then (rt, true)
+  else if r.kinds = [] then ({ rt with names := r.name :: rt.names }, true)
+  else ({ idx := addRuleIdx rt.idx r, names := r.name :: rt.names, indexed := rt.indexed ++ [r] }, false)
+
+def buildIdx (rules : List Rule) : Idx := rules.foldl addRuleIdx (.kind [] [])
+
+def Root.build (rules : List Rule) : Root := rules.foldl (fun rt r => (rt.addRule r).1) {}
+
+def Root.matchEv (rx : Nat → Val → Bool) (rt : Root) (ev : Event) : Out (List Rule) :=
+  matchAt rx ev ev.kind rt.idx
+
+def Root.isTriggering (rt : Root) (ev : Event) : Bool := trigAt ev.kind rt.idx
+
+/-! ## RuleScope -/
+
+inductive Scope where
+  | node (flag : Option Bool) (children : List (Seg × Scope))
+
+def Scope.empty : Scope := .node none []
+
+/-- `RuleScope.Add` (the path is `[]` for the scope path "", else the path split at ".") -/
+def Scope.add (allow : Bool) : List Seg → Scope → Scope
+  | [], .node _ ch => .node (some allow) ch
+  | s :: rest, .node f ch => .node f (aset s (Scope.add allow rest ((alookup s ch).getD Scope.empty)) ch)
+
+/-- the loop of `RuleScope.IsAllowed` below a node whose flag has already been looked at -/
+def Scope.walk : List Seg → Scope → Bool → Bool
+  | [], _, allowed => allowed
+  | s :: rest, .node _ ch, allowed =>
+    match alookup s ch with
+    | none => allowed
+    | some (.node f ch') => Scope.walk rest (.node f ch') (f.getD allowed)
+
+/-- `RuleScope.IsAllowed` (the path is always the scope path split at ".", so `[""]` for "") -/
+def Scope.isAllowed (sc : Scope) (path : List Seg) : Bool :=
+  match sc with
+  | .node f ch => Scope.walk path (.node f ch) (f.getD false)
+
+def Scope.isAllowedAll (sc : Scope) (paths : List (List Seg)) : Bool := paths.all sc.isAllowed
+
+def Scope.build (defs : List (List Seg × Bool)) : Scope :=
+  defs.foldl (fun sc d => sc.add d.2 d.1) Scope.empty
+
+/-- the flag stored for exactly this path (none: no such node, or no flag on it) -/
+def Scope.flagAt : Scope → List Seg → Option Bool
+  | .node f _, [] => f
+  | .node _ ch, s :: rest =>
+    match alookup s ch with
+    | none => none
+    | some c => Scope.flagAt c rest
+
+/-! ## eventProcessor.ProcessEvent -/
+
+/-- the first loop: skip names already seen, keep candidates in scope -/
+def triggering (sc : Scope) : List Rule → List String → List Rule
+  | [], _ => []
+  | r :: rest, seen =>
+    if r.name ∈ seen then triggering sc rest seen
+    else if sc.isAllowedAll r.scope then r :: triggering sc rest (r.name :: seen)
+    else triggering sc rest (r.name :: seen)
+
+def executing (trig : List Rule) : List Rule :=
+  let suppressed := trig.flatMap (·.suppress)
+  trig.filter fun r => r.name ∉ suppressed
+
+/-- the rules whose actions run for a candidate list, in execution order (order among equal
+    priorities is not determined by `sort.Sort`; this model keeps the candidate order) -/
+def execOrder (sc : Scope) (cands : List Rule) : List Rule :=
+  (executing (triggering sc cands [])).mergeSort (fun a b => a.prio ≤ b.prio)
+
+def processEvent (rx : Nat → Val → Bool) (rt : Root) (sc : Scope) (ev : Event) : Out (List Rule) :=
+  match rt.matchEv rx ev with
+  | .ok cands => .ok (execOrder sc cands)
+  | .panic => .panic
+  | .hang => .hang
+
+/-! ## the trigger cache -/
+
+structure Proc where
+  root : Root
+  cache : List (List Seg × Bool) := []
+
+/-- `eventProcessor.IsTriggering` -/
+def Proc.isTriggering (p : Proc) (ev : Event) : Bool × Proc :=
+  match alookup ev.kind p.cache with
+  | some b => (b, p)
+  | none =>
+    let b := p.root.isTriggering ev
+    (b, { p with cache := aset ev.kind b p.cache })
+
+/-- `AddEvent` followed by the task: `none` = the event was skipped (nil monitor) -/
+def Proc.addEvent (rx : Nat → Val → Bool) (p : Proc) (sc : Scope) (ev : Event) :
+    Option (Out (List Rule)) × Proc :=
+  let r := p.isTriggering ev
+  if r.1 then (some (processEvent rx r.2.root sc ev), r.2) else (none, r.2)
+
+/-- the processor after a history of added events -/
+def Proc.after (rx : Nat → Val → Bool) (sc : Scope) (p : Proc) (hist : List Event) : Proc :=
+  hist.foldl (fun p ev => (p.addEvent rx sc ev).2) p
+
+/-- what Go guarantees about a rule: `strings.Split` never returns an empty slice, and the keys of
+    the `StateMatch` map are distinct -/
+def Rule.WF (r : Rule) : Prop := (∀ p ∈ r.kinds, p ≠ []) ∧ ((r.state.getD []).map (·.1)).Nodup
+
+/-! ## the specification -/
+
+namespace Spec
+
+/-- a kind pattern matches a kind: same number of segments, each equal or `*` -/
+def patMatch : List Seg → List Seg → Bool
+  | [], [] => true
+  | p :: ps, k :: ks => (p = "*" || p = k) && patMatch ps ks
+  | _, _ => false
+
+def admits (rx : Nat → Val → Bool) : Pat → Val → Bool
+  | .any, _ => true
+  | .atom c, v => v = .atom c
+  | .deep c, v => v = .deep c
+  | .rx id, v => rx id v
+
+def kindOK (r : Rule) (ev : Event) : Bool := r.kinds.any (patMatch · ev.kind)
+
+/-- every required key is present with an admitted value -/
+def stateOK (rx : Nat → Val → Bool) (r : Rule) (ev : Event) : Bool :=
+  (r.state.getD []).all fun kp =>
+    match alookup kp.1 ev.state with
+    | some v => admits rx kp.2 v
+    | none => false
+
+/-- how often the index must return rule `x`: once per kind pattern of `x` that matches (and per
+    copy of `x` in the rule list), if the state pattern of `x` admits the event — else not at all -/
+def matchCount (rx : Nat → Val → Bool) (rules : List Rule) (ev : Event) (x : Rule) : Nat :=
+  if stateOK rx x ev then rules.count x * x.kinds.countP (patMatch · ev.kind) else 0
+
+def scopeOK (allowed : List Seg → Bool) (r : Rule) : Bool := r.scope.all allowed
+
+def triggers (rx : Nat → Val → Bool) (allowed : List Seg → Bool) (ev : Event) (r : Rule) : Bool :=
+  kindOK r ev && stateOK rx r ev && scopeOK allowed r
+
+/-- rule name `n` must run for the event -/
+def fires (rx : Nat → Val → Bool) (rules : List Rule) (allowed : List Seg → Bool) (ev : Event)
+    (n : String) : Prop :=
+  (∃ r ∈ rules, r.name = n ∧ triggers rx allowed ev r = true) ∧
+  ¬ ∃ r' ∈ rules, triggers rx allowed ev r' = true ∧ n ∈ r'.suppress
+
+/-- executable form of `fires` (used by the driver as a cross-check of the model against the spec) -/
+def firesList (rx : Nat → Val → Bool) (rules : List Rule) (allowed : List Seg → Bool) (ev : Event) :
+    List String :=
+  let trig := rules.filter (triggers rx allowed ev)
+  let supp := trig.flatMap (·.suppress)
+  (trig.map (·.name)).filter (· ∉ supp)
+
+/-- flag of the longest prefix of the path on which `d` is defined -/
+def longest (d : List Seg → Option Bool) : List Seg → Option Bool
+  | [] => d []
+  | s :: rest => (longest (fun q => d (s :: q)) rest).or (d [])
+
+/-- the flag given to path `q` by the last definition for `q` in a sequence of `Add` calls -/
+def lastDef : List (List Seg × Bool) → List Seg → Option Bool
+  | [], _ => none
+  | d :: rest, q => (lastDef rest q).or (if d.1 = q then some d.2 else none)
+
+end Spec
 
 end Ecal.Engine
